@@ -294,6 +294,35 @@ PROPS = {
         "level_note": "Trusted: harness/refsearch; recording wrapper delegates to the real table unchanged.",
         "technique": "property-based testing (rapid): differential (table vs reference/no table) over generated search sequences, recorded-store validation",
     },
+    "C12": {
+        "title": "halting a search at any instant is clean",
+        "run": "^TestC12_",
+        "level": "fault_enumeration",
+        "shards": 16,
+        "timeout": 600,
+        "thorough_scale": 10,
+        "thorough_timeout": 2400,
+        "rule": "C12/halt: crash-point enumeration through an injected context.Context whose Done() counts cancellation polls and "
+                "reports cancellation from the n-th poll on (every cancellation test in alpha-beta, quiescence and minimax is a Done() "
+                "call). For a generated (root + history, configuration as in C03, depth, real table of 32 B..4 MiB): one clean run "
+                "counts the polls P; then n ranges over ALL of 1..P when P <= 120 and over a drawn stride/offset (<= 120 points) "
+                "otherwise. For each n: the call must return ErrHalted with no score, PV or node count; everything the board reports "
+                "must be as before the call and every legal root move played afterwards must report the same as on a board never "
+                "searched; and nothing is left behind: a following search on the SAME table (same root and depth / depth+1 / the "
+                "position one move on) must return exactly the score it returns on a fresh table that never saw the halted search, "
+                "equal to the exhaustive reference value, with a best first PV move; every exact store made AFTER the poll that "
+                "reported cancellation (the recording table knows that instant) and a sample of the earlier ones must be the true "
+                "value of its position at its depth. Table comparisons are made for position-determined configurations whose "
+                "reference trees contain no repetition/fifty-move draw. Non-trivial = distinct (root, depth, config, table, n) "
+                "cancellation points (counted individually) plus roots where at least one point fired with a move pushed. "
+                "evaluations = roots.",
+        "assumptions": COMMON_ASSUMPTIONS + ["cancellation is observed only through Done() polls (true for context.Context users); halting through searchctl's quit channel is exercised in C15/C16"],
+        "level_text": "Fault enumeration: every cancellation poll of small searches, and a strided subset of larger ones (about "
+                      "50k halting points per quick run), each followed by a search on the same table and compared with the run in "
+                      "which the halted search never happened.",
+        "level_note": "Trusted: harness/refsearch for the follow-up value and store validation; the poll-counting context.",
+        "technique": "fault injection at every cancellation poll (enumerated), differential follow-up search on the same table, recorded-store validation",
+    },
 }
 
 # Properties not claimed, with the reason (kept current).
